@@ -594,9 +594,27 @@ func buildVariants(mode string, w *World, h *History, base *Transcript, r *rand.
 				rep.ChecksRun++
 			}
 		}}
+		// the same at ONE kind of call boundary per block only: the check state keeps what a checked finalize did
+		// until the next Commit, so a finalize checked at every boundary runs its update function only at the
+		// first one after each Commit (before BeginBlock) — what it leaves in memory is then overwritten by
+		// BeginBlock; checked only AFTER BeginBlock (or after the first transaction, or after EndBlock) it is not
+		at := func(name string, want func(pos int) bool) *Variant {
+			return &Variant{Name: name, Checks: func(rp *Replica, b, pos int) {
+				if !want(pos) {
+					return
+				}
+				for _, tx := range directed {
+					rp.CheckTx(tx)
+					rep.ChecksRun++
+				}
+			}}
+		}
 		mixed := append(append([][]byte{}, all...), probes...)
 		return []*Variant{mk("checktx-everywhere", 100, all), mk("checktx-sparse", 25, all),
-			mk("checktx-never-delivered-everywhere", 100, probes), mk("checktx-mixed-sparse", 35, mixed), dv}
+			mk("checktx-never-delivered-everywhere", 100, probes), mk("checktx-mixed-sparse", 35, mixed), dv,
+			at("checktx-finalize-after-beginblock", func(pos int) bool { return pos == 0 }),
+			at("checktx-finalize-after-first-tx", func(pos int) bool { return pos == 1 }),
+			at("checktx-finalize-after-endblock", func(pos int) bool { return pos == 1000 })}
 	case "c08":
 		vs := []*Variant{}
 		for k := 0; k < 3; k++ {
